@@ -275,6 +275,8 @@ def prepare(case, spelling='tuple'):
 
 def make_engine(mbi, case, domain, **kw):
     elim = case.get('elim_perm') if case.get('elim') == 'perm' else None
+    if case.get('warm_flag'):
+        kw.setdefault('warm_start', True)
     return mbi.FactoredInference(domain, iters=case['iters'], structural_zeros=zeros_dict(case.get('zeros', [])),
                                  elim_order=elim, **kw)
 
